@@ -63,6 +63,9 @@ type callResult struct {
 	inObjs    map[string]tensor.Tensor
 	outObjs   map[string]tensor.Tensor
 	Skipped   bool
+	// inputsEditedLater: the caller has overwritten the tensors it passed to this call (buffer re-use); whatever
+	// this call returned may legitimately share their memory, so the late re-read of its outputs proves nothing
+	inputsEditedLater bool
 }
 
 type liveModel struct {
@@ -433,6 +436,53 @@ func (x *executor) doCall(ti, ci int, ctx *callCtx) {
 			in[k] = t
 		}
 		sameFlavour = ref.flavour
+	case KRefill:
+		ref := &x.results[ti][call.Ref]
+		if ref.inObjs == nil || len(ref.flavour) != 0 {
+			res.Skipped = true
+			return
+		}
+		// only buffers the caller made itself: a tensor it was handed back by a Run (which may be, or share memory
+		// with, a weight of the Model when a graph output names an initializer) is not overwritten - the property
+		// speaks of re-used input tensors and fed-back outputs, not of callers editing what Run returned
+		foreign := map[tensor.Tensor]bool{}
+		for oi := range x.results {
+			for oc := range x.results[oi] {
+				for _, t := range x.results[oi][oc].outObjs {
+					foreign[t] = true
+				}
+			}
+		}
+		for _, m := range x.models {
+			for _, t := range m.params {
+				foreign[t] = true
+			}
+		}
+		edited := map[tensor.Tensor]bool{}
+		for k, v := range call.Inputs {
+			if t := ref.inObjs[k]; t != nil && !foreign[t] && overwrite(t, v) {
+				in[k] = t
+				edited[t] = true
+			} else {
+				in[k] = v.Tensor()
+			}
+		}
+		// every earlier call that was handed one of these objects (or handed it back) is excused from the late re-read
+		for oi := range x.results {
+			for oc := range x.results[oi] {
+				r := &x.results[oi][oc]
+				for _, t := range r.inObjs {
+					if edited[t] {
+						r.inputsEditedLater = true
+					}
+				}
+				for _, t := range r.outObjs {
+					if edited[t] {
+						r.inputsEditedLater = true
+					}
+				}
+			}
+		}
 	case KFeedback:
 		ref := &x.results[ti][call.Ref]
 		for k, v := range call.Inputs {
@@ -557,6 +607,30 @@ func (x *executor) doCall(ti, ci int, ctx *callCtx) {
 	}
 }
 
+// overwrite copies v into the memory of t (a caller re-using its buffer) when t is a plain dense tensor of v's
+// element type and shape; it reports whether it did.
+func overwrite(t tensor.Tensor, v *val.V) (done bool) {
+	defer func() {
+		if recover() != nil {
+			done = false
+		}
+	}()
+	d, ok := t.(*tensor.Dense)
+	if !ok || d.IsScalar() || d.RequiresIterator() || fmt.Sprint([]int(d.Shape())) != fmt.Sprint(v.Shape) {
+		return false
+	}
+	cur := val.Snap(d)
+	if cur.Bad != "" || cur.DT != v.DT {
+		return false
+	}
+	dst, src := reflect.ValueOf(d.Data()), reflect.ValueOf(v.Backing())
+	if dst.Kind() != reflect.Slice || src.Kind() != reflect.Slice || dst.Type() != src.Type() || dst.Len() != src.Len() {
+		return false
+	}
+	reflect.Copy(dst, src)
+	return true
+}
+
 // worldRun is everything one execution of a world produced.
 type worldRun struct {
 	results [][]callResult
@@ -660,7 +734,7 @@ func execute(c *Case, pol policy, attrib bool, checkState bool) *worldRun {
 	// the caller still holds every tensor it was given back: read them again now that everything has run
 	for ti := range x.results {
 		for ci := range x.results[ti] {
-			if r := &x.results[ti][ci]; r.outObjs != nil {
+			if r := &x.results[ti][ci]; r.outObjs != nil && !r.inputsEditedLater {
 				r.OutLate = snapAll(r.outObjs)
 			}
 		}
